@@ -258,7 +258,7 @@ func (h *H) updateModel(s *step) {
 	faulted := r.FaultFired() || r.Panic != nil || r.Err != nil
 	// new id issued?
 	for _, sc := range r.SetCookies() {
-		if sc.Name == h.w.CookieName() && sc.Attrs["max-age"] != "0" && sc.Value != "" {
+		if sc.Name == h.w.CookieName() && !sc.Expired() && sc.Value != "" {
 			s.NewID = sc.Value
 		}
 	}
